@@ -1,66 +1,83 @@
 //! Verification model of `hashbrown::HashMap` (sequential map): array backed, `HCAP` entries,
-//! `retain` visits in slot order.  No hashing.  No drop glue.
+//! `retain` visits in slot order.  No hashing.  No drop glue.  State out of line in padding-free cells
+//! (see the dashmap model for why).
 use core::borrow::Borrow;
 use core::mem::MaybeUninit;
 pub const HCAP: usize = 4;
 
 pub struct HashMap<K, V> {
-    used: [bool; HCAP],
-    keys: [MaybeUninit<K>; HCAP],
-    vals: [MaybeUninit<V>; HCAP],
+    used: *mut [u64; HCAP],
+    keys: *mut [MaybeUninit<K>; HCAP],
+    vals: *mut [MaybeUninit<V>; HCAP],
 }
+unsafe impl<K: Send, V: Send> Send for HashMap<K, V> {}
+unsafe impl<K: Sync, V: Sync> Sync for HashMap<K, V> {}
 impl<K: Eq, V> Default for HashMap<K, V> { fn default() -> Self { Self::new() } }
+impl<K, V> HashMap<K, V> {
+    #[inline(always)] #[allow(clippy::mut_from_ref)]
+    fn used(&self) -> &mut [u64; HCAP] { unsafe { &mut *self.used } }
+    #[inline(always)] #[allow(clippy::mut_from_ref)]
+    fn keys(&self) -> &mut [MaybeUninit<K>; HCAP] { unsafe { &mut *self.keys } }
+    #[inline(always)] #[allow(clippy::mut_from_ref)]
+    fn vals(&self) -> &mut [MaybeUninit<V>; HCAP] { unsafe { &mut *self.vals } }
+}
 impl<K: Eq, V> HashMap<K, V> {
     pub fn new() -> Self {
-        HashMap { used: [false; HCAP], keys: unsafe { MaybeUninit::uninit().assume_init() }, vals: unsafe { MaybeUninit::uninit().assume_init() } }
+        HashMap {
+            used: Box::into_raw(Box::new([0u64; HCAP])),
+            keys: Box::into_raw(Box::<[MaybeUninit<K>; HCAP]>::new_uninit()) as *mut [MaybeUninit<K>; HCAP],
+            vals: Box::into_raw(Box::<[MaybeUninit<V>; HCAP]>::new_uninit()) as *mut [MaybeUninit<V>; HCAP],
+        }
     }
     #[inline(always)]
     fn find<Q>(&self, k: &Q) -> usize where K: Borrow<Q>, Q: Eq + ?Sized {
+        let (used, keys) = (self.used(), self.keys());
         let mut idx = HCAP; let mut i = 0;
-        while i < HCAP { if idx == HCAP && self.used[i] && unsafe { self.keys[i].assume_init_ref() }.borrow() == k { idx = i; } i += 1; }
+        while i < HCAP { if idx == HCAP && used[i] != 0 && unsafe { keys[i].assume_init_ref() }.borrow() == k { idx = i; } i += 1; }
         idx
     }
     pub fn insert(&mut self, k: K, v: V) -> Option<V> {
         let idx = self.find(&k);
         if idx < HCAP {
-            let old = unsafe { self.vals[idx].assume_init_read() };
-            self.vals[idx] = MaybeUninit::new(v);
+            let old = unsafe { self.vals()[idx].assume_init_read() };
+            self.vals()[idx] = MaybeUninit::new(v);
             core::mem::forget(k);
             return Some(old);
         }
+        let used = self.used();
         let mut f = HCAP; let mut i = 0;
-        while i < HCAP { if f == HCAP && !self.used[i] { f = i; } i += 1; }
+        while i < HCAP { if f == HCAP && used[i] == 0 { f = i; } i += 1; }
         if f >= HCAP {
             #[cfg(kani)] kani::assume(false);
             f = 0;
         }
-        self.used[f] = true; self.keys[f] = MaybeUninit::new(k); self.vals[f] = MaybeUninit::new(v);
+        used[f] = 1; self.keys()[f] = MaybeUninit::new(k); self.vals()[f] = MaybeUninit::new(v);
         None
     }
     pub fn remove<Q>(&mut self, k: &Q) -> Option<V> where K: Borrow<Q>, Q: Eq + ?Sized {
         let idx = self.find(k);
-        if idx < HCAP { self.used[idx] = false; Some(unsafe { self.vals[idx].assume_init_read() }) } else { None }
+        if idx < HCAP { self.used()[idx] = 0; Some(unsafe { self.vals()[idx].assume_init_read() }) } else { None }
     }
     pub fn get<Q>(&self, k: &Q) -> Option<&V> where K: Borrow<Q>, Q: Eq + ?Sized {
         let idx = self.find(k);
-        if idx < HCAP { Some(unsafe { self.vals[idx].assume_init_ref() }) } else { None }
+        if idx < HCAP { Some(unsafe { self.vals()[idx].assume_init_ref() }) } else { None }
     }
     pub fn contains_key<Q>(&self, k: &Q) -> bool where K: Borrow<Q>, Q: Eq + ?Sized { self.find(k) < HCAP }
-    pub fn clear(&mut self) { let mut i = 0; while i < HCAP { self.used[i] = false; i += 1; } }
-    pub fn len(&self) -> usize { let mut n = 0; let mut i = 0; while i < HCAP { if self.used[i] { n += 1; } i += 1; } n }
+    pub fn clear(&mut self) { let used = self.used(); let mut i = 0; while i < HCAP { used[i] = 0; i += 1; } }
+    pub fn len(&self) -> usize { let used = self.used(); let mut n = 0; let mut i = 0; while i < HCAP { if used[i] != 0 { n += 1; } i += 1; } n }
     pub fn is_empty(&self) -> bool { self.len() == 0 }
     pub fn retain<F: FnMut(&K, &mut V) -> bool>(&mut self, mut f: F) {
         let mut i = 0;
         while i < HCAP {
-            if self.used[i] {
-                let keep = f(unsafe { self.keys[i].assume_init_ref() }, unsafe { self.vals[i].assume_init_mut() });
-                if !keep { self.used[i] = false; }
+            if self.used()[i] != 0 {
+                let keep = f(unsafe { self.keys()[i].assume_init_ref() }, unsafe { self.vals()[i].assume_init_mut() });
+                if !keep { self.used()[i] = 0; }
             }
             i += 1;
         }
     }
     pub fn vk_slot(&self, i: usize) -> Option<(&K, &V)> {
-        if i < HCAP && self.used[i] { Some(unsafe { (self.keys[i].assume_init_ref(), self.vals[i].assume_init_ref()) }) } else { None }
+        if i < HCAP && self.used()[i] != 0 { Some(unsafe { (self.keys()[i].assume_init_ref(), self.vals()[i].assume_init_ref()) }) } else { None }
     }
-    pub fn vk_place(&mut self, i: usize, k: K, v: V) { self.used[i] = true; self.keys[i] = MaybeUninit::new(k); self.vals[i] = MaybeUninit::new(v); }
+    pub fn vk_place(&mut self, i: usize, k: K, v: V) { self.used()[i] = 1; self.keys()[i] = MaybeUninit::new(k); self.vals()[i] = MaybeUninit::new(v); }
 }
